@@ -13,8 +13,8 @@
 EXTENDS RoomsOps, Json, Integers, FiniteSets, TLC
 
 TraceLog == ndJsonDeserialize("trace.ndjson")
-VARIABLES l, mem, live, calls, sender
-tvars == <<l, mem, live, calls, sender>>
+VARIABLES l, mem, live, calls, sender, intent
+tvars == <<l, mem, live, calls, sender, intent>>
 ASSUME TLCSet(1, 0)
 Rec == TraceLog[l]
 IsEvent(e) == /\ l <= Len(TraceLog) /\ TraceLog[l].ev = e /\ l' = l + 1
@@ -26,11 +26,11 @@ BcOK(r) ==
     /\ SeqToSet(r.got) = want
     /\ Len(r.got) = Cardinality(want)          \* once each
 Chk(ok) == IF ok THEN TRUE ELSE PrintT(<<"STEP_MISMATCH", l>>)
-TBc == IsEvent("bc") /\ Chk(BcOK(Rec)) /\ UNCHANGED <<mem, live, calls, sender>>
+TBc == IsEvent("bc") /\ Chk(BcOK(Rec)) /\ UNCHANGED <<mem, live, calls, sender, intent>>
 
 \* ---- traces -------------------------------------------------------------
-TraceInit == l = 1 /\ mem = <<>> /\ live = {} /\ calls = <<>> /\ sender = <<>>
-TReset == IsEvent("reset") /\ mem' = <<>> /\ live' = {} /\ calls' = <<>> /\ sender' = <<>>
+TraceInit == l = 1 /\ mem = <<>> /\ live = {} /\ calls = <<>> /\ sender = <<>> /\ intent = <<>>
+TReset == IsEvent("reset") /\ mem' = <<>> /\ live' = {} /\ calls' = <<>> /\ sender' = <<>> /\ intent' = <<>>
 
 Qual(m, lv, s, T, E) == s \in DOMAIN m /\ s \in lv /\ (T = {} \/ m[s] \cap T # {}) /\ m[s] \cap E = {}
 TMatch(m, lv, s, T) == s \in DOMAIN m /\ s \in lv /\ (T = {} \/ m[s] \cap T # {})
@@ -43,17 +43,17 @@ Track(m2, lv2) ==
 
 TAdd == /\ IsEvent("rooms.add")
         /\ mem' = MemAdd(mem, Rec.sid, SeqToSet(Rec.rooms))
-        /\ Track(mem', live) /\ UNCHANGED <<live, sender>>
+        /\ Track(mem', live) /\ UNCHANGED <<live, sender, intent>>
 TDel == /\ IsEvent("rooms.del")
         /\ mem' = MemDel(mem, Rec.sid, Rec.room)
-        /\ Track(mem', live) /\ UNCHANGED <<live, sender>>
+        /\ Track(mem', live) /\ UNCHANGED <<live, sender, intent>>
 TDelAll == /\ IsEvent("rooms.delall")
            /\ mem' = MemDelAll(mem, Rec.sid)
-           /\ Track(mem', live) /\ UNCHANGED <<live, sender>>
+           /\ Track(mem', live) /\ UNCHANGED <<live, sender, intent>>
 TStoreSet == /\ IsEvent("nspstore.set") /\ live' = live \cup {Rec.sid}
-             /\ Track(mem, live') /\ UNCHANGED <<mem, sender>>
+             /\ Track(mem, live') /\ UNCHANGED <<mem, sender, intent>>
 TStoreRemove == /\ IsEvent("nspstore.remove") /\ live' = live \ {Rec.sid}
-                /\ Track(mem, live') /\ UNCHANGED <<mem, sender>>
+                /\ Track(mem, live') /\ UNCHANGED <<mem, sender, intent>>
 
 PutCall(g, v) == calls' = [x \in DOMAIN calls \cup {g} |-> IF x = g THEN v ELSE calls[x]]
 
@@ -63,6 +63,9 @@ TApplyStart ==
          PutCall(Rec.g, [T |-> T, E |-> E, got |-> <<>>,
                          must |-> Recipients(mem, live, T, E),
                          may |-> {s \in DOMAIN mem : TMatch(mem, live, s, T)}])
+    \* a kept operator must hand the adapter the selection it was built for
+    /\ (Rec.g \in DOMAIN intent => (SeqToSet(Rec.T) = intent[Rec.g].T /\ SeqToSet(Rec.E) = intent[Rec.g].E))
+    /\ intent' = [x \in DOMAIN intent \ {Rec.g} |-> intent[x]]
     /\ UNCHANGED <<mem, live, sender>>
 
 \* a callback: never the sender of a socket-originated broadcast, never twice
@@ -72,7 +75,7 @@ TApplyCb ==
     /\ Rec.sid \notin SeqToSet(calls[Rec.g].got)
     /\ (Rec.g \in DOMAIN sender => sender[Rec.g] # Rec.sid)
     /\ calls' = [calls EXCEPT ![Rec.g].got = Append(@, Rec.sid)]
-    /\ UNCHANGED <<mem, live, sender>>
+    /\ UNCHANGED <<mem, live, sender, intent>>
 
 \* the call ends: members throughout were reached, nobody outside `may` was
 TApplyEnd ==
@@ -81,27 +84,32 @@ TApplyEnd ==
     /\ LET c == calls[Rec.g] IN c.must \subseteq SeqToSet(c.got) /\ SeqToSet(c.got) \subseteq c.may
     /\ calls' = [x \in DOMAIN calls \ {Rec.g} |-> calls[x]]
     /\ sender' = [x \in DOMAIN sender \ {Rec.g} |-> sender[x]]
-    /\ UNCHANGED <<mem, live>>
+    /\ UNCHANGED <<mem, live, intent>>
 
 \* harness: the next broadcast of goroutine g is issued through socket `sid`
 TFrom == /\ IsEvent("emit.from")
          /\ sender' = [x \in DOMAIN sender \cup {Rec.g} |-> IF x = Rec.g THEN Rec.sid ELSE sender[x]]
-         /\ UNCHANGED <<mem, live, calls>>
+         /\ UNCHANGED <<mem, live, calls, intent>>
+
+\* harness: the next broadcast of goroutine g goes through a kept operator built for (T, E)
+TIntent == /\ IsEvent("bc.intent")
+           /\ intent' = [x \in DOMAIN intent \cup {Rec.g} |-> IF x = Rec.g THEN [T |-> SeqToSet(Rec.T), E |-> SeqToSet(Rec.E)] ELSE intent[x]]
+           /\ UNCHANGED <<mem, live, calls, sender>>
 
 \* harness: membership as the public API reports it must be the specification's (Rooms() of a socket)
 TRoomsOf == /\ IsEvent("rooms.of")
             /\ SeqToSet(Rec.rooms) = MemOf(mem, Rec.sid)
-            /\ UNCHANGED <<mem, live, calls, sender>>
+            /\ UNCHANGED <<mem, live, calls, sender, intent>>
 
 \* harness: everything returned; a socket that is gone belongs to no room
 TQuiesce == /\ IsEvent("quiesce")
             /\ \A s \in DOMAIN mem : s \notin live => mem[s] = {}
             /\ calls = <<>>
-            /\ UNCHANGED <<mem, live, calls, sender>>
-TNote == (IsEvent("nsp.send") \/ IsEvent("note")) /\ UNCHANGED <<mem, live, calls, sender>>
+            /\ UNCHANGED <<mem, live, calls, sender, intent>>
+TNote == (IsEvent("nsp.send") \/ IsEvent("note")) /\ UNCHANGED <<mem, live, calls, sender, intent>>
 
 TraceNext == TBc \/ TReset \/ TAdd \/ TDel \/ TDelAll \/ TStoreSet \/ TStoreRemove \/ TApplyStart \/ TApplyCb
-             \/ TApplyEnd \/ TFrom \/ TRoomsOf \/ TNote \/ TQuiesce
+             \/ TApplyEnd \/ TFrom \/ TIntent \/ TRoomsOf \/ TNote \/ TQuiesce
 TraceSpec == TraceInit /\ [][TraceNext]_tvars
 HWM == IF l > TLCGet(1) THEN TLCSet(1, l) ELSE TRUE
 TraceAccepted == IF TLCGet(1) = Len(TraceLog) + 1 THEN TRUE
